@@ -39,6 +39,10 @@ func init() {
 			"\ts.writeSockAddrIpv4.Port = int(peerAddr.Port())\n", "", "C12-R1"},
 		mutant{"handler reads into the buffer captured at start", "multicast/reactor.go",
 			"\t\tr.peer.asyncReadNow(r.b, r.fn)", "\t\tr.peer.asyncReadNow(r.peer.read.b[:0], r.fn)", "C12-R2"},
+		mutant{"handler clears the designated buffer", "multicast/reactor.go",
+			"\t\tr.peer.asyncReadNow(r.b, r.fn)", "\t\tb := r.b\n\t\tr.b = nil\n\t\tr.peer.asyncReadNow(b, r.fn)", "C12-R2"},
+		mutant{"destination cached by address identity", "packet.go",
+			"\terr := syscall.Sendto(c.slot.Fd, b, 0, internal.ToSockaddr(to))", "\tif c.remoteAddr != to {\n\t\tc.remoteAddr = to\n\t}\n\terr := syscall.Sendto(c.slot.Fd, b, 0, internal.ToSockaddr(c.remoteAddr))", "C12-R1"},
 		mutant{"SetAsyncReadBuffer writes the wrong reactor", "multicast/peer.go",
 			"func (p *UDPPeer) SetAsyncReadBuffer(to []byte) {\n\tp.read.b = to", "func (p *UDPPeer) SetAsyncReadBuffer(to []byte) {\n\tp.write.b = to", "C12-R2"},
 		mutant{"ttl cached even when the kernel refused", "multicast/peer.go",
@@ -162,7 +166,8 @@ func runC12(c *Ctx) {
 				}
 				destOK := false
 				if addrPrm != nil {
-					if dependsOnLoose(args[3], addrPrm) {
+					// computed from the argument on this very call (operands only: a value cached in a field does not count)
+					if dependsOn(args[3], addrPrm) {
 						destOK = true
 					}
 					if spec.typ == "Socket" {
@@ -196,7 +201,7 @@ func runC12(c *Ctx) {
 	}
 
 	// ------------------------------------------------------------------------------------------------ R2
-	c.rule("C12-R2", "the multicast read handler uses the buffer currently designated in the reactor; AsyncRead and SetAsyncReadBuffer designate it", 3)
+	c.rule("C12-R2", "the multicast read handler uses the buffer currently designated in the reactor; AsyncRead and SetAsyncReadBuffer designate it", 5)
 	{
 		bF := p.Field("multicast", "readReactor", "b")
 		on := p.Method("multicast", "readReactor", "on")
@@ -213,6 +218,19 @@ func runC12(c *Ctx) {
 			}
 		}
 		c.check(good, on, "read buffer", on.Pos(), "reads into the reactor's current buffer", "the read handler does not read into the buffer stored in its reactor at the time it runs: SetAsyncReadBuffer has no effect on the pending read")
+		// the handlers leave the reactor as it is: the operation may be parked again (EAGAIN after a wake-up) and must find
+		// its buffer, destination and callback
+		for _, rt := range []string{"readReactor", "writeReactor"} {
+			h := p.Method("multicast", rt, "on")
+			st := p.Named("multicast", rt).Underlying().(*types.Struct)
+			touched := ""
+			for i := 0; i < st.NumFields(); i++ {
+				if len(storesTo(h, st.Field(i))) > 0 {
+					touched = st.Field(i).Name()
+				}
+			}
+			c.check(touched == "", h, "reactor state kept", h.Pos(), "the handler does not modify the parked operation's buffer / destination / callback", "the handler overwrites reactor field "+touched+": if the retried operation would block again it is re-armed without its buffer/destination/callback and the next datagram is lost or misdelivered")
+		}
 		for _, name := range []string{"SetAsyncReadBuffer", "AsyncRead"} {
 			fn := p.Method("multicast", "UDPPeer", name)
 			ok := false
